@@ -1470,6 +1470,7 @@ class Interp:
                 self.exec_block(st.orelse, fr)
             return
         L, get = sym
+        fr._loop_iter = it  # the iterated value itself (invariants may speak about "the first `it` items of what is being iterated")
         key, spec = self.loop_spec(st, fr)
         if spec is None:
             r = self.lib.auto_loop(self, st, fr, L, get)
@@ -1559,6 +1560,7 @@ class Interp:
         d = dict(fr.locals)
         d["it"] = itv
         d["L"] = L
+        d["iterated"] = getattr(fr, "_loop_iter", None)
         d["old"] = NS(fr.entry, "entry value")
         d["pre"] = NS(getattr(fr, "_loop_pre", {}), "loop-entry value")
         d["yielded"] = fr.yielded.seq if isinstance(fr.yielded, SymList) else fr.yielded
